@@ -4,7 +4,7 @@
   response for every verdict the scan decides alone (FORMERR, BADVERS, NOTIMP, REFUSED, SERVFAIL for
   a zone that is not loaded).
 -/
-import QV.Proofs.ServerScan
+import QV.Proofs.ScanRefine
 
 namespace QV.ServerScan
 open QV QV.Wire QV.Reader QV.Writer
@@ -213,7 +213,8 @@ theorem hwc_false (cfg : Server.Cfg) (tr : Server.Transport) (now : Nat) (req : 
     (sH s' : State) (h : Server.handleWithContext cfg tr now ⟨req, 12, none⟩ sH = (.ok false, s')) :
     Spec.Server.hdr req 4 > 1 := by
   obtain ⟨hqd, han, hns, har, _, hop, _, _⟩ := reader_header req h12
-  unfold Server.handleWithContext at h
+  rw [Server.handleWithContext_split] at h
+  unfold Server.handleWithContext' at h
   simp only [hqd, han, hns, har, hop] at h
   have tail : ∀ (question : Option (WName × Nat × Nat)) (r1 : Reader) (b : Bool) (s' : State),
       (Server.addQuestionOrServfail question >>= fun okQ =>
@@ -329,7 +330,8 @@ theorem handleMessage_none_iff (cfg : Server.Cfg) (tr : Server.Transport) (now b
               (((req.getD 2 0).toNat &&& 1) != 0)) = (.ok false, hdrSt (w0 bufLen (lim0 tr)) (Spec.Server.hdr req 0)
                 (((req.getD 2 0).toNat &&& 120) >>> 3) (((req.getD 2 0).toNat &&& 1) != 0)) := by
           obtain ⟨hqd, han, hns, har, _, hop, _, _⟩ := reader_header req h12'
-          unfold Server.handleWithContext
+          rw [Server.handleWithContext_split]
+          unfold Server.handleWithContext'
           simp only [hqd, han, hns, har, hop, show ¬ Spec.Server.hdr req 4 = 0 by omega,
             show ¬ Spec.Server.hdr req 4 = 1 by omega, if_false]
         rw [this]
